@@ -43,6 +43,14 @@ static mut SCHED: *const Scheduler = std::ptr::null();
 // were sent to this worker by `schedule_global` (every spawn) would never run
 const GLOBAL_POLL_INTERVAL: usize = 61;
 
+// how many coroutines a worker runs in `run_queued_tasks` before it returns to its event
+// loop. the io events and the io timers of a worker are only served by its `select`, a
+// coroutine that keeps yielding (e.g. polls a flag with `yield_now`) keeps the local queue
+// non-empty for ever, so without a budget `run_queued_tasks` never returns and the
+// coroutines that wait for io on this worker (maybe the one that would set the flag)
+// are never resumed
+const IO_POLL_INTERVAL: usize = GLOBAL_POLL_INTERVAL * 8;
+
 #[cold]
 fn init_scheduler() {
     let workers = config().get_workers();
@@ -145,6 +153,9 @@ impl Scheduler {
             if ticks % GLOBAL_POLL_INTERVAL == 0 {
                 self.collect_global(id);
             }
+            if ticks >= IO_POLL_INTERVAL {
+                return self.yield_to_selector(id);
+            }
         }
     }
 
@@ -169,6 +180,9 @@ impl Scheduler {
                     if ticks % GLOBAL_POLL_INTERVAL == 0 {
                         self.collect_global(id);
                     }
+                    if ticks >= IO_POLL_INTERVAL {
+                        return self.yield_to_selector(id);
+                    }
                     continue 'work;
                 }
                 None => {
@@ -191,11 +205,23 @@ impl Scheduler {
                 let stealer = self.stealers.get(target).unwrap();
                 if let Some(co) = stealer.steal_into(local) {
                     run_coroutine(co);
+                    ticks = ticks.wrapping_add(1);
+                    if ticks >= IO_POLL_INTERVAL {
+                        return self.yield_to_selector(id);
+                    }
                     continue 'work;
                 }
             }
             return;
         }
+    }
+
+    /// leave `run_queued_tasks` while there may still be queued tasks, see the comment
+    /// of `IO_POLL_INTERVAL`. the wakeup event makes the next `select` return at once,
+    /// together with the io events that are pending, and `select` runs the queue again
+    #[cold]
+    fn yield_to_selector(&self, id: usize) {
+        self.get_selector().wakeup(id);
     }
 
     /// put the coroutine to correct queue so that next time it can be scheduled
